@@ -62,7 +62,16 @@ P = {
          "§3 C11, §2 E1"),
  "C12": (False, "", "", "", "§3 C12"),
  "C13": (False, "", "", "", "§3 C13"),
- "C14": (False, "", "", "", "§3 C14"),
+ "C14": (True,
+         "interprocedural error-provenance (value-flow) analysis on SSA (E9, custom) + non-nil and pairing rules at constructor sites",
+         "Decides the type half of the property for all inputs: every value that can reach an `error` result of the Config API (19 entry points) is "
+         "traced back through phis, named results, captured locals, *error out-parameters, struct fields and callee results (interface calls joined "
+         "over VTA) and must be nil or of a type implementing ucfg.Error; raw Err* variables, errors.New/fmt.Errorf, library and callback errors are "
+         "violations unless wrapped by a raise* constructor. Also: error literals carry a class variable and a reason that is non-nil on that path; "
+         "constructors get context and metadata of one object, the receiver of the failing conversion. Message text / completeness of the path rest "
+         "on C15 and are not decided.",
+         TRUST + "Values of static type ucfg.Error are typed by the Go type system.",
+         "§3 C14, appendix B E9"),
  "C15": (False, "", "", "", "§3 C15"),
  "C16": (True,
          "sibling agreement of option pairs + CFG path rule on the child-options function (custom analyzer)",
